@@ -70,6 +70,7 @@ Explain ==
       [] ev.e = "drop"      -> Drop(ev.slot)
       [] ev.e = "cli"       -> Cli(ev.loc, ev.img, ev.rpc, ev.target)
       [] ev.e = "redeliver" -> Redeliver(ev.loc, ev.ver)
+      [] ev.e = "copyto"    -> CopyTo(ev.loc, ev.dst)
       [] ev.e = "damage"    -> Damage(ev.loc, ev.file, ev.how)
       [] ev.e = "restore"   -> Restore(ev.loc)
       [] ev.e = "delete"    -> CellSet(ev.loc, ev.img, ev.cell, Absent)
@@ -118,7 +119,7 @@ NewTrace ==
     /\ ~needSync
     /\ l <= Len(Lines) /\ Ev.e = "hdr" /\ Verdict
     /\ tid' = Ev.tid /\ bad' = << >> /\ badLine' = 0 /\ l' = l + 1 /\ needSync' = FALSE /\ ndrift' = 0
-    /\ store' = [x \in Locs |-> [ver |-> 0, dmg |-> [f \in Files |-> "ok"]]]
+    /\ store' = [x \in Locs |-> [ver |-> VerName(x, 0), dmg |-> [f \in Files |-> "ok"]]]
     /\ local' = [x \in Locs |-> [m \in ImageSet |-> Absent]] /\ adjacent' = [x \in Locs |-> [m \in ImageSet |-> Absent]]
     /\ cacheOK' = TRUE /\ tree' = [t \in Slots |-> NoTree] /\ ops' = 0 /\ last' = Quiet
 Fin == /\ ~needSync /\ l = Len(Lines) + 1 /\ Verdict /\ l' = l + 1 /\ UNCHANGED <<tid, bad, badLine, vars, needSync, ndrift>>
